@@ -16,7 +16,7 @@ CASES = {"quick": 12000, "thorough": 200000}
 MIN_CASES_PER_SHARD = 30
 CASE_TIMEOUT = 60
 RULE = ("one case = generated map x trace (outliers, first observation too far or too improbable) x configuration (all families, non-emitting "
-        "on in 60 %, widths, cut-offs that bite incl. exact thresholds) x history of match/extend/widen calls, executed at ERROR and at DEBUG "
+        "on in 60 %, widths, cut-offs that bite incl. exact thresholds) x history of match/extend/widen calls, executed (on InMemMap, 15-20 % on SqliteMap) at ERROR and at DEBUG "
         "(null handler or stream handler). Non-trivial = the DEBUG run materialised >= 1 stopped lattice entry; distinct = hash of the case")
 ANCHORS = [("leuvenmapmatching/matcher/base.py", "BaseMatching.next"),
            ("leuvenmapmatching/matcher/base.py", "BaseMatching.first"),
@@ -25,7 +25,7 @@ ANCHORS = [("leuvenmapmatching/matcher/base.py", "BaseMatching.next"),
            ("leuvenmapmatching/matcher/base.py", "LatticeColumn.prune"),
            ("leuvenmapmatching/matcher/base.py", "BaseMatcher.match")]
 FLOORS = {"results_compared": 2500, "debug_runs_with_stopped_entries": 700, "stopped_entries_materialised": 8000, "stream_handler_runs": 300,
-          "with_nonemitting": 600, "with_width": 500, "early_stops_compared": 300}
+          "with_nonemitting": 600, "with_width": 500, "early_stops_compared": 300, "sqlite_backend_pairs": 200}
 ASSUMPTIONS = ["identical means: returned states, index, keys and log-probabilities of the best path compare equal (==)"]
 
 
@@ -39,20 +39,29 @@ def gen_case(rng, i, tier):
         case["trace"][j] = [case["trace"][j][0] + rng.choice([3.0, 8.0]), case["trace"][j][1] - 2.0]
     case["ops"] = gen.gen_history(rng, len(case["trace"]), cfg["width"], allow_cwd=False, max_ops=3)
     case["handler"] = rng.choice(["null", "null", "stream"])
+    # the map backend is part of "a match": a fifth of the integer-labelled cases runs on SqliteMap (built at the same level)
+    ints = all(isinstance(l, int) for l, _ in case["map"]["nodes"]) and not case["map"].get("linked")
+    case["backend"] = "sqlite" if (ints and rng.random() < 0.25) else "inmem"
     return case
 
 
-def run(case, debug):
-    mt = build.make_matcher(build.make_inmem(case["map"]), case["cfg"])
+def run(case, debug, scratch=None):
     tr = build.trace(case["trace"])
     out = []
     h = None
+    sm = None
     if debug:
         env.logger.setLevel(logging.DEBUG)
         if case["handler"] == "stream":
             h = logging.StreamHandler(io.StringIO())
             env.logger.addHandler(h)
     try:
+        if case.get("backend") == "sqlite" and scratch:
+            sm = mp = build.make_sqlite(case["map"], scratch)
+        else:
+            mp = build.make_inmem(case["map"])
+        mt = build.make_matcher(mp, case["cfg"])
+
         def after(i, op, res, exc):
             if exc is not None:
                 out.append({"exc": type(exc).__name__ + ":" + str(exc)[:80]})
@@ -63,12 +72,16 @@ def run(case, debug):
         env.logger.setLevel(logging.ERROR)
         if h is not None:
             env.logger.removeHandler(h)
+        if sm is not None:
+            build.close_sqlite(sm)
     return mt, out
 
 
 def check_case(ctx, case):
-    mt0, r0 = run(case, False)
-    mt1, r1 = run(case, True)
+    mt0, r0 = run(case, False, ctx.scratch)
+    mt1, r1 = run(case, True, ctx.scratch)
+    if case.get("backend") == "sqlite":
+        ctx.count("sqlite_backend_pairs")
     ctx.evaluated(2)
     stopped = 0
     if mt1.lattice:
